@@ -785,6 +785,9 @@ func ruleENG15(c *Ctx) {
 		if isDiagnosticCallee(name) {
 			continue
 		}
+		if callee != nil && callee.Parent() == rt && closureHasNoEffect(callee, 0) {
+			continue // a closure of its own that does nothing to the facts or the knowledge base (a deferred timer, a log)
+		}
 		if (callee != nil && fnInModule(callee)) || (m != nil && m.Pkg() != nil && inModule(m.Pkg().Path())) {
 			extra = append(extra, name+" at "+p.InstrPos(ci.(ssa.Instruction)))
 		}
@@ -1024,4 +1027,36 @@ func dominatingIfBlock(b *ssa.BasicBlock) *ssa.BasicBlock {
 		}
 	}
 	return b
+}
+
+
+// closureHasNoEffect: no store outside its own locals, no map update, no call of a module function other than logging.
+func closureHasNoEffect(fn *ssa.Function, depth int) bool {
+	if fn == nil || fn.Blocks == nil || depth > 2 {
+		return false
+	}
+	for _, b := range fn.Blocks {
+		for _, in := range b.Instrs {
+			switch x := in.(type) {
+			case *ssa.Store:
+				if !localTemp(x.Addr) {
+					return false
+				}
+			case *ssa.MapUpdate:
+				return false
+			case ssa.CallInstruction:
+				callee, m := calleeOf(x)
+				if isDiagnosticCallee(calleeName(x)) {
+					continue
+				}
+				if callee != nil && callee.Parent() == fn && closureHasNoEffect(callee, depth+1) {
+					continue
+				}
+				if (callee != nil && fnInModule(callee)) || (m != nil && m.Pkg() != nil && inModule(m.Pkg().Path())) {
+					return false
+				}
+			}
+		}
+	}
+	return true
 }
